@@ -249,7 +249,7 @@ def run(F, rep):
 
     # ------------------------------------------------------------------ loop-carried locals
     from engines import rule_loop_state
-    rule_loop_state(F, rep, 'C14.S1', lambda g: g.file.endswith(('/parser.cpp', '/xmlutils.cpp')), 'parser.cpp and xmlutils.cpp')
+    rule_loop_state(F, rep, 'C14.S2', lambda g: g.file.endswith(('/parser.cpp', '/xmlutils.cpp')), 'parser.cpp and xmlutils.cpp')
 
     # ------------------------------------------------------------------ N: both legacy namespaces are removed
     rep.rule('C14.N2', 'removeCellml1XNamespaces removes the CellML 1.0 and the 1.1 namespace declarations independently of each other: the removal of one does not depend on whether the element also declares the other '
